@@ -249,7 +249,37 @@ func runC13(c *Ctx) {
 
 	// ---- C13.3 one-to-one symmetry (structural part)
 	{
-		bsc := p.Func("util/crypto:buildSortedContext")
+		bscOpt := p.FuncOpt("util/crypto:buildSortedContext")
+		gsk := p.Func("util/crypto:GenerateSharedKey")
+		bsc := bscOpt
+		if bsc == nil {
+			bsc = gsk // the helper was inlined into its only caller: decide the ordering there
+		}
+		// the two compared operands (the helper's parameters, or — inlined — the two keys)
+		var ca, cb ssa.Value
+		sameVal := func(v, w ssa.Value) bool {
+			if v == nil || w == nil {
+				return false
+			}
+			if v == w {
+				return true
+			}
+			a, ua := Origins(v)
+			b, ub := Origins(w)
+			return !ua && !ub && len(a) == 1 && len(b) == 1 && a[0] == b[0]
+		}
+		opA := func(v ssa.Value) bool {
+			if bscOpt != nil {
+				return originatesFromParam(v, bsc.Params[0])
+			}
+			return sameVal(v, ca)
+		}
+		opB := func(v ssa.Value) bool {
+			if bscOpt != nil {
+				return originatesFromParam(v, bsc.Params[1])
+			}
+			return sameVal(v, cb)
+		}
 		cmp := p.PkgFunc("bytes:Compare")
 		ok := false
 		det := "the two branches of one bytes.Compare(a, b) test append (a‖b) and (b‖a)"
@@ -260,12 +290,24 @@ func runC13(c *Ctx) {
 			if !isIf {
 				return
 			}
-			nIf++
+			if bscOpt != nil {
+				nIf++
+			}
 			a := AtomOf(iff)
 			if !valueIsResultOf(a.X, func(cc *ssa.CallCommon) bool {
-				return CalleeIs(cmp)(cc) && ((originatesFromParam(cc.Args[0], bsc.Params[0]) && originatesFromParam(cc.Args[1], bsc.Params[1])) || (originatesFromParam(cc.Args[0], bsc.Params[1]) && originatesFromParam(cc.Args[1], bsc.Params[0])))
+				if !CalleeIs(cmp)(cc) {
+					return false
+				}
+				if bscOpt == nil {
+					ca, cb = cc.Args[0], cc.Args[1]
+					return true
+				}
+				return (opA(cc.Args[0]) && opB(cc.Args[1])) || (opB(cc.Args[0]) && opA(cc.Args[1]))
 			}) {
 				return
+			}
+			if bscOpt == nil {
+				nIf++
 			}
 			order := func(b *ssa.BasicBlock) string {
 				// the append whose first operand is a parameter: append(a, b...) / append(b, a...)
@@ -273,10 +315,10 @@ func runC13(c *Ctx) {
 				for _, x := range b.Instrs {
 					if call, isCall := x.(*ssa.Call); isCall {
 						if bi, isB := call.Call.Value.(*ssa.Builtin); isB && bi.Name() == "append" && len(call.Call.Args) == 2 {
-							if originatesFromParam(call.Call.Args[0], bsc.Params[0]) && originatesFromParam(call.Call.Args[1], bsc.Params[1]) {
+							if opA(call.Call.Args[0]) && opB(call.Call.Args[1]) {
 								res = "ab"
 							}
-							if originatesFromParam(call.Call.Args[0], bsc.Params[1]) && originatesFromParam(call.Call.Args[1], bsc.Params[0]) {
+							if opB(call.Call.Args[0]) && opA(call.Call.Args[1]) {
 								res = "ba"
 							}
 						}
@@ -310,9 +352,8 @@ func runC13(c *Ctx) {
 				if !okx || !oky || x.Block() != y.Block() || len(x.Edges) != 2 {
 					return
 				}
-				pa, pb := ssa.Value(bsc.Params[0]), ssa.Value(bsc.Params[1])
-				swapped := (x.Edges[0] == pa && y.Edges[0] == pb && x.Edges[1] == pb && y.Edges[1] == pa) ||
-					(x.Edges[0] == pb && y.Edges[0] == pa && x.Edges[1] == pa && y.Edges[1] == pb)
+				swapped := (opA(x.Edges[0]) && opB(y.Edges[0]) && opB(x.Edges[1]) && opA(y.Edges[1])) ||
+					(opB(x.Edges[0]) && opA(y.Edges[0]) && opA(x.Edges[1]) && opB(y.Edges[1]))
 				if swapped {
 					ok = true
 					det = "one bytes.Compare(a, b) test selects (first, second) = (a, b) or (b, a) for a single append"
@@ -326,7 +367,10 @@ func runC13(c *Ctx) {
 		} else {
 			c.Check(ok && nIf == 1, "C13.3-sorted-context", FuncName(bsc), p.Pos(bsc.Pos()), det)
 		}
-		gsk := p.Func("util/crypto:GenerateSharedKey")
-		c.Check(ContainsCall(gsk, CalleeFn(bsc)), "C13.3-sorted-context", FuncName(gsk)+"|context via buildSortedContext", p.Pos(gsk.Pos()), "the shared-key derivation context is built by buildSortedContext from both public keys")
+		if bscOpt != nil {
+			c.Check(ContainsCall(gsk, CalleeFn(bsc)), "C13.3-sorted-context", FuncName(gsk)+"|context via buildSortedContext", p.Pos(gsk.Pos()), "the shared-key derivation context is built by buildSortedContext from both public keys")
+		} else {
+			c.Hold("C13.3-sorted-context", FuncName(gsk)+"|context via buildSortedContext", p.Pos(gsk.Pos()), "buildSortedContext was inlined: the ordering is decided inside GenerateSharedKey itself")
+		}
 	}
 }
